@@ -73,6 +73,9 @@ type e2eCfg struct {
 	// C17 (relay): called, synchronously, with every chunk the relay chain hands to the client before the
 	// client sees it (blocking in it holds the chunk back); nil = none
 	relayTap func(b []byte)
+	// C17 (relay): handed the in-band input of the relay next to the client (what the client's terminal side writes
+	// into it), so that the harness can type bytes there itself; nil = none
+	onRelayIn func(w io.Writer)
 }
 
 // e2eTapReader lets the harness see (and hold back) what the client is about to read
@@ -330,6 +333,9 @@ func runTransfer(cfg e2eCfg, src []string, dest string) e2eResult {
 	}
 	if cfg.relayTap != nil {
 		upOut = &e2eTapReader{upOut, cfg.relayTap}
+	}
+	if cfg.onRelayIn != nil && cfg.relays > 0 {
+		cfg.onRelayIn(upIn)
 	}
 	filter := trzsz.NewTrzszFilter(cliInR, termWriter{r}, upIn, upOut, trzsz.TrzszOptions{TerminalColumns: 100})
 	if cfg.tunnel {
